@@ -221,7 +221,15 @@ func TestWorker(t *testing.T) {
 			r1 := ExecRun(t, sc, sim.ReplayTapes(shr.Tapes), tier, true)
 			r2 := ExecRun(t, sc, sim.ReplayTapes(shr.Tapes), tier, false)
 			exact := hasViolation(r1, fresh) && hasViolation(r2, fresh) && r1.LogHash == r2.LogHash
-			rf := &ReplayFile{Property: prop, Scenario: sc.Name, Tier: tier, Seed: seed, RunIndex: idx, Tapes: shr.Tapes, Violation: fresh, LogHash: r1.LogHash, Steps: r1.Steps, Sample: r1.Sample, Shrunk: true, ShrinkExecs: execs, Original: &orig, Log: r1.Log}
+			if !exact {
+				// the minimised tapes do not reproduce reliably: fall back to the original run's tapes
+				out.Counters["shrink.fallback_to_original"]++
+				shr.Tapes = orig
+				r1 = ExecRun(t, sc, sim.ReplayTapes(orig), tier, true)
+				r2 = ExecRun(t, sc, sim.ReplayTapes(orig), tier, false)
+				exact = hasViolation(r1, fresh) && hasViolation(r2, fresh) && r1.LogHash == r2.LogHash
+			}
+			rf := &ReplayFile{Property: prop, Scenario: sc.Name, Tier: tier, Seed: seed, RunIndex: idx, Tapes: shr.Tapes, Violation: fresh, LogHash: r1.LogHash, Steps: r1.Steps, Sample: r1.Sample, Shrunk: exact, ShrinkExecs: execs, Original: &orig, Log: r1.Log}
 			for _, v := range append([]*Violation{r1.Violation}, r1.Soft...) {
 				if sameViolation(v, fresh) {
 					rf.Violation = v
@@ -280,6 +288,10 @@ func TestReplay(t *testing.T) {
 	sim.InstallHook()
 	Watchdog(180*time.Second, func() string { return "replay " + path })
 	defer os.RemoveAll(world.ScratchRoot)
+	for i := 1; i < envInt("VERIF_REPLAY_TIMES", 1); i++ {
+		r := ExecRun(t, sc, sim.ReplayTapes(rf.Tapes), rf.Tier, false)
+		fmt.Printf("REPLAY-PRE %d: violation=%v log=%s herr=%s\n", i, r.Violation != nil || len(r.Soft) > 0, r.LogHash[:12], firstLine(r.HarnessErr))
+	}
 	res := ExecRun(t, sc, sim.ReplayTapes(rf.Tapes), rf.Tier, true)
 	if os.Getenv("VERIF_REPLAY_VERBOSE") != "" {
 		for _, l := range res.Sample {
